@@ -27,6 +27,7 @@ PROP = dict(
          "from several peers with per-peer allocator ids (collisions) or globally distinct ids, data under the right / a foreign session key, "
          "close, reset, destination EOF, double close, re-open of a closed id, opens that must be refused of every kind (all-zero / low-order ephemeral key, destination not allowed, unresolvable domain, dial refused, unknown forward key, MaxConnections=6 reached) under fresh and live ids; ConnectionCount() and the map keys are printed after every op. "
          "engine c17r: the relay dispatch engine of C16 (tcp/udp/icmp opens, frames from both legs, disconnects, final teardown + `end`). "
+         "configuration matrix (extra): 8 further real agents, one per (exit, udp, icmp) on/off combination, each relaying one tunnel of every kind; after the upstream peer disconnects all three relay tables must be empty (op `tworld`). "
          "non-trivial = the op changed a table/map or produced an event",
     nontrivial=lambda op, out: not op.startswith(("reset", "t.both", "t.down")) and ("ev=[]" not in out) and ("sent=[] " not in out or op.startswith(("disc", "close", "rst", "err", "t."))),
     trusted_base=[
